@@ -136,9 +136,10 @@ def generate(repo, table, lemma_files=None, with_lemmas=True):
         g.emit(open(os.path.join(VERIF, 'verus', f)).read())
 
     g.emit('verus! {')
-    g.emit('broadcast use {axioms::ax_debt_empty, axioms::ax_debt_zero_factors, axioms::ax_debt_reset};')
     if with_lemmas:
         g.emit(open(os.path.join(VERIF, 'verus/35_broadcast_use.rs')).read())
+    else:
+        g.emit('broadcast use {axioms::ax_debt_empty, axioms::ax_debt_zero_factors, axioms::ax_debt_reset};')
     g.emit('impl Metrics {')
     for key in [k for k in fns if k.startswith('metrics.')]:
         if key not in table:
